@@ -1,8 +1,12 @@
 ---------------------------- MODULE MCLspServer ----------------------------
 (* M for the server half of C44: every interleaving of at most MaxMsgs client messages (two uris,
-   a few texts, positions on and off the text) with the server's Handle and Publish steps. *)
+   a few texts, positions on and off the text) with the server's Handle and Publish steps.
+   Ordered = FALSE: publications race, as in the code (one goroutine per update): TLC finds a
+   behaviour that violates FinalPublishFresh (a CANDIDATE, confirmed on the real server by the
+   executor).  Ordered = TRUE: publications are written in handling order (the repair): every
+   property holds. *)
 EXTENDS LspServer
-CONSTANT MaxMsgs
+CONSTANTS MaxMsgs, Ordered
 VARIABLE hist            \* history: every message the client wrote
 Uris  == {"u1", "u2"}
 Texts == {<<"nop">>, <<"a", "CR", "LF", "nop">>}
@@ -15,9 +19,10 @@ Client == /\ sent < MaxMsgs
              \/ \E u \in Uris, t \in Texts : Change(u, t, <<>>) /\ hist' = Append(hist, Msg("change", u, t, 0, 0))
              \/ \E k \in {"hover", "completion"}, u \in Uris, p \in Poss :
                    Request(k, u, p[1], p[2]) /\ hist' = Append(hist, Msg(k, u, <<>>, p[1], p[2]))
-Server == (Handle \/ \E o \in owed : Publish(o)) /\ UNCHANGED hist
+PublishSome == \E o \in owed : (Ordered => \A p \in owed : o.n <= p.n) /\ Publish(o)
+Server == (Handle \/ PublishSome) /\ UNCHANGED hist
 MCNext == Client \/ Server
-Spec == MCInit /\ [][MCNext]_<<vars, hist>> /\ WF_vars(Handle) /\ WF_vars(\E o \in owed : Publish(o))
+Spec == MCInit /\ [][MCNext]_<<vars, hist>> /\ WF_vars(Handle) /\ WF_vars(PublishSome)
 
 ReqIds   == {hist[i].n : i \in {j \in 1..Len(hist) : ~IsNotification(hist[j])}}
 NotifIds == {hist[i].n : i \in {j \in 1..Len(hist) : IsNotification(hist[j])}}
